@@ -267,7 +267,7 @@ func randLife(r *rand.Rand, tags tagset, nonconf bool, long bool) []hx.T {
 	for seg := 1 + r.Intn(3); seg > 0; seg-- {
 		n := 1 + r.Intn(8)
 		if long {
-			n = 8 + r.Intn(24)
+			n = 6 + r.Intn(14)
 		}
 		evs := append(pending, randEvents(r, n, selfID, known, tags, nonconf)...)
 		pending = nil
